@@ -243,7 +243,7 @@ def _forms(C):
     N = 2
     combos = []
     for deg in (True, False):
-        combos += [("rotvec", deg, None), ("rotvec", deg, 2), ("angax", deg, None), ("angax", deg, 2), ("euler", deg, None), ("euler", deg, 2)]
+        combos += [("rotvec", deg, None), ("rotvec", deg, 2), ("angax", deg, None), ("angax", deg, 2), ("euler", deg, None), ("euler", deg, 2), ("eulerI", deg, None)]
     combos += [("matrix", None, None), ("mrp", None, None), ("mrp", None, 2), ("quat", None, None), ("quat", None, 2)]
     for form, deg, n_in in combos:
         for start, anchor_kind in (("auto", "none"), (1, "single"), (-1, "zero")):
@@ -274,8 +274,8 @@ def _forms(C):
                         rv = np.array([[ax[k] / nrm * angr[i] for k in range(3)] for i in range(n_in)], dtype=object)
                     o1.rotate_from_angax(ang.copy() if n_in else ang, ax.copy(), anchor=a1, start=start, degrees=deg)
                     o2.rotate(SymRot.from_rotvec(oarr(rv)), anchor=a2, start=start)
-                elif form == "euler":
-                    seq = "xyz" if n_in is None else "z"
+                elif form in ("euler", "eulerI"):
+                    seq = ("XYZ" if form == "eulerI" else "xyz") if n_in is None else "z"  # upper case = intrinsic rotations
                     ang = symarr("e", (3,)) if n_in is None else symarr("e", (n_in, 1))  # (n,1): SciPy>=1.15 rejects (n,) for one axis
                     o1.rotate_from_euler(ang.copy(), seq, anchor=a1, start=start, degrees=deg)
                     o2.rotate(SymRot.from_euler(seq, ang.copy(), degrees=deg), anchor=a2, start=start)
@@ -292,7 +292,8 @@ def _forms(C):
                     unit = unit + ru
                     o1.rotate_from_quat(r.as_quat(), anchor=a1, start=start)
                     o2.rotate(r, anchor=a2, start=start)
-                return o1, o2, unit
+                    qg = qg + [list(x) for x in r.q]
+                return o1, o2, unit, qg
 
             CTX.pre = [z3.Or(*[z3.Real(f"ax_{k}") != 0 for k in range(3)])] if form == "angax" else []
             CTX_pre_extra = []
@@ -303,7 +304,7 @@ def _forms(C):
                 if p.status != "ok":
                     C.note_inconclusive(tag, f"aborted: {p.out}")
                     return
-                o1, o2, unit = p.out
+                o1, o2, unit, qg = p.out
                 if isinstance(o1, Exception):
                     return
                 P1, Q1 = np.asarray(o1._position, dtype=object), np.asarray(o1._orientation.as_quat(), dtype=object)
@@ -315,7 +316,9 @@ def _forms(C):
                 viol = z3.Or(neq_any(P1, P2), neq_rot(Q1, Q2))
                 assume = p.pc + unit + CTX_pre_extra
                 viol, merged, failed = C.merge_uf(assume, viol, timeout=5000)
-                C.oblige(tag, assume, viol, inputs=None,
+                all_inputs = [z3.Real(n) for n in sorted({str(x) for e in assume + [viol] for x in _free_inputs(e)})]
+                C.oblige(tag, assume, viol, inputs=all_inputs, nice=False, key=f"C09|rotate_from_{form}|differs", quat_groups=qg,
+                         on_model=lambda env, form=form: {"key": f"C09|rotate_from_{form}|differs", "replay": {"kind": "form", "form": form}},
                          sample=f"rotate_from_{form}(...) leaves the object in the same state as rotate(R.from_{form}(...)) with the same anchor/start")
 
             try:
@@ -324,6 +327,14 @@ def _forms(C):
             except Exception as e:  # noqa
                 C.obligations.append({"name": tag + ".returns", "status": "sat", "note": f"raised {type(e).__name__}: {e}"})
                 C.candidates.append({"key": f"C09|rotate_from_{form}|raises", "replay": {"kind": "form", "form": form, "deg": deg, "n_in": n_in, "start": start, "anchor": anchor_kind}})
+
+
+def _free_inputs(e):
+    from symnum.core import consts_of
+
+    acc, seen = {}, set()
+    consts_of(e, acc, seen)
+    return [x for x in acc.values() if "!" not in str(x) and z3.is_real(x)]
 
 
 def _bad_calls():
@@ -524,6 +535,9 @@ def _replay_form(spec):
                     pairs.append(("angax", mk().rotate_from_angax(ang, ax, anchor=anchor, start=start, degrees=deg), mk().rotate(R.from_rotvec(rv), anchor=anchor, start=start)))
                     seq, e = ("xyz", rng.normal(size=3)) if n_in is None else ("z", rng.normal(size=(n_in, 1)))
                     pairs.append(("euler", mk().rotate_from_euler(e, seq, anchor=anchor, start=start, degrees=deg), mk().rotate(R.from_euler(seq, e, degrees=deg), anchor=anchor, start=start)))
+                    if n_in is None:
+                        pairs.append(("euler(intrinsic XYZ)", mk().rotate_from_euler(e, "XYZ", anchor=anchor, start=start, degrees=deg),
+                                      mk().rotate(R.from_euler("XYZ", e, degrees=deg), anchor=anchor, start=start)))
                     m = R.random(random_state=3).as_matrix() if n_in is None else R.random(n_in, random_state=3).as_matrix()
                     pairs.append(("matrix", mk().rotate_from_matrix(m, anchor=anchor, start=start), mk().rotate(R.from_matrix(m), anchor=anchor, start=start)))
                     pairs.append(("mrp", mk().rotate_from_mrp(v, anchor=anchor, start=start), mk().rotate(R.from_mrp(v), anchor=anchor, start=start)))
